@@ -59,9 +59,12 @@ def actorOf : Op → Nat
   | .router s _ _ => s
   | .factory s _ _ => s
 
-/-- environment: the addresses the chain allocates to a new pair and its LP token are fresh -/
+/-- environment: the addresses the chain allocates to a new pair and its LP token are fresh (the new
+pair address is neither an existing pair nor an existing token contract; the new token address is not an
+existing token contract) -/
 def FreshOK (w : World) (op : Op) : Prop :=
-  ∀ s f a0 a1 req c np nl, op = .factory s f (.createPair a0 a1 req c np nl) → w.pair np = none ∧ w.tok nl = none
+  ∀ s f a0 a1 req c np nl, op = .factory s f (.createPair a0 a1 req c np nl) →
+    w.pair np = none ∧ w.tok nl = none ∧ w.tok np = none
 
 /-- sum of the balances of an asset over a list of accounts -/
 def sumBal (w : World) (a : Asset) (L : List Nat) : Nat := (L.map (bal w a)).sum
